@@ -14,7 +14,8 @@
 //! multiset of (path -> data | refusal) and the multiset of handler calls; both are compared with
 //! what was observed.
 //!
-//! Sub-checks: `read` (Read + Subscribe priming, attributes and events), `write`, `invoke`
+//! Sub-checks: `read` (Read + Subscribe priming, attributes and events), `write`, `write-chunked`
+//! (a WriteRequest in 2-4 chunks with per-chunk TimedRequest flags and delays), `invoke`
 //! (both with / without a Timed request), `dynamic-node` (endpoints disappear / appear between the
 //! chunks of a long answer), `group` (the requester is a group: only member endpoints are
 //! reachable; only the handler log is observable), `fabric-sensitive` (fabric-sensitive events
@@ -72,6 +73,8 @@ enum Request {
     Subscribe(SubscribeReq),
     Write { timed: Option<Timed>, flag: bool, items: Vec<WriteItem> },
     Invoke { timed: Option<Timed>, flag: bool, items: Vec<InvokeItem> },
+    /// a WriteRequest sent as 2-4 chunks (MoreChunkedMessages) on one exchange
+    WriteChunked { timed: Option<Timed>, chunks: Vec<WriteChunk> },
 }
 
 #[derive(Debug, Clone, Serialize, Deserialize)]
@@ -346,6 +349,8 @@ enum Outcome {
     Read(ReadOutcome),
     Write(WriteOutcome),
     Invoke(InvokeOutcome),
+    /// + length of the handler call log right after the answer to each chunk
+    WriteChunked(ChunkedWriteOutcome, Vec<usize>),
 }
 
 struct Observed {
@@ -434,6 +439,13 @@ fn run_case(case: &C06Case) -> Result<Observed, Case> {
             Request::Invoke { flag, items, .. } if matches!(case.who, Who::Group { .. }) => {
                 let r = send_only(&mut ex, rs_matter::im::OpCode::InvokeRequest, &encode_invoke(items, *flag), 2000).await;
                 (Outcome::Invoke(InvokeOutcome { error: r.err(), ..Default::default() }), 0, 0)
+            }
+            Request::WriteChunked { timed, chunks } => {
+                let mut marks: Vec<usize> = Vec::new();
+                let w = write_chunked(&mut ex, *timed, chunks, &mut |_, _| marks.push(node.calls().len())).await;
+                // anything the device still does after the interaction ended shows up in the log
+                embassy_time::Timer::after(embassy_time::Duration::from_millis(300)).await;
+                (Outcome::WriteChunked(w, marks), 0, 0)
             }
             Request::Write { timed, flag, items } => {
                 let w = write(&mut ex, *timed, *flag, items).await;
@@ -978,6 +990,174 @@ fn check_write(case: &C06Case) -> Case {
         st.label("multi-item");
     }
     Case::pass(st.nontrivial() || refusable).labels(st.labels)
+}
+
+/// What the statement says about one chunk of a chunked write.
+#[derive(Debug, Clone, Copy, PartialEq)]
+enum ChunkRule {
+    /// no effect at all; a non-success answer or the end of the interaction
+    MustRefuse,
+    /// served like a single-message write with this "inside a valid timed interaction" state
+    MustServe(Expect),
+    /// refused without any effect, or served with this timed state
+    RefuseOrServe(Expect),
+}
+
+fn check_write_chunked(case: &C06Case) -> Case {
+    let obs = match run_case(case) {
+        Ok(o) => o,
+        Err(c) => return c,
+    };
+    let model = Model::new(&case.node, obs.installed.clone(), &case.who);
+    let mut st = Stats::new();
+    let Request::WriteChunked { timed, chunks } = &case.req else { return Case::inconclusive("not a chunked write") };
+    let Outcome::WriteChunked(out, marks) = &obs.outcome else { return Case::inconclusive("outcome kind") };
+    st.label(match case.who {
+        Who::Case { .. } => "requester:case",
+        Who::Pase { fab: 0 } => "requester:pase-fabricless",
+        Who::Pase { .. } => "requester:pase-with-fabric",
+        Who::Group { .. } => "requester:group",
+    });
+    st.label(&format!("chunks:{}", chunks.len()));
+    let ctx = |case: &C06Case| format!("requester {:?}; request {:?}", case.who, case.req);
+    if let Some(e) = &out.error {
+        return Case::fail("write-chunked:timed-request-not-answered", format!("{e}; {}", ctx(case)));
+    }
+    let has_timed = timed.is_some();
+    if has_timed && out.timed_status != Some(0) {
+        return Case::fail("write-chunked:timed-request-refused", format!("status {:?}; {}", out.timed_status, ctx(case)));
+    }
+    let limit = timed.map(|t| t.timeout_ms as u64 * 1000).unwrap_or(0);
+    st.label(if has_timed { "timed" } else { "untimed" });
+    let mut deviating = false;
+    let mut served = 0usize;
+    let mut interesting = false;
+    let mut ended_at: Option<usize> = None;
+    for (i, c) in chunks.iter().enumerate() {
+        let Some(o) = out.chunks.get(i) else { break };
+        let (from, to) = (if i == 0 { 0 } else { marks.get(i - 1).copied().unwrap_or(0) }, marks.get(i).copied().unwrap_or(obs.calls.len()));
+        let calls = &obs.calls[from.min(to)..to];
+        let rule = if c.timed_flag != has_timed {
+            deviating = true;
+            st.label(if i == 0 { "flag-deviates:first-chunk" } else { "flag-deviates:later-chunk" });
+            st.label(if c.timed_flag { "flag-deviates:claims-timed" } else { "flag-deviates:denies-timed" });
+            ChunkRule::MustRefuse
+        } else if !has_timed {
+            ChunkRule::MustServe(Expect::Deny)
+        } else {
+            let sure_valid = o.t_answered.saturating_sub(out.t_timed_sent) <= limit;
+            let sure_expired = o.t_sent.saturating_sub(out.t_timed_acked) > limit;
+            if o.t_sent.saturating_sub(out.t_timed_acked) == limit {
+                st.label("timed:chunk-exactly-at-the-timeout");
+            }
+            if sure_valid {
+                ChunkRule::MustServe(Expect::Allow)
+            } else if i == 0 {
+                st.label("timed:first-chunk-after-the-window");
+                ChunkRule::RefuseOrServe(if sure_expired { Expect::Deny } else { Expect::Either })
+            } else {
+                // not specified for the chunks after the first
+                st.label("timed:later-chunk-after-the-window");
+                ChunkRule::RefuseOrServe(Expect::Either)
+            }
+        };
+        let refused = o.status.is_some_and(|s| s != 0) || o.error.is_some();
+        if o.status == Some(0) {
+            return Case::fail("write-chunked:success-status-instead-of-write-response", format!("chunk {i}; {}", ctx(case)));
+        }
+        let timed_ok = match rule {
+            ChunkRule::MustRefuse => {
+                if let Some(call) = calls.first() {
+                    return Case::fail(
+                        "write-chunked:effect-of-chunk-with-mismatching-timed-flag",
+                        format!("chunk {i} has TimedRequest={} but a Timed request {} precede the write; nevertheless the handler was called: {call:?}; answer {o:?}; {}", c.timed_flag, if has_timed { "did" } else { "did not" }, ctx(case)),
+                    );
+                }
+                if o.responded && o.statuses.iter().any(|s| s.status == 0) {
+                    return Case::fail("write-chunked:chunk-with-mismatching-timed-flag-served", format!("chunk {i}: {o:?}; {}", ctx(case)));
+                }
+                None
+            }
+            ChunkRule::MustServe(t) => {
+                if !o.responded {
+                    let why = ABANDONED.with(|a| a.borrow().clone());
+                    let sig = match (&o.error, &why) {
+                        (Some(_), Some(e)) => format!("write-chunked:no-answer(device abandoned the exchange: {e})"),
+                        (Some(_), None) => "write-chunked:no-answer".to_string(),
+                        _ => "write-chunked:refused-without-reason".to_string(),
+                    };
+                    return Case::fail(sig, format!("chunk {i} had to be served but was answered with {o:?}; device-side error {why:?}; {}", ctx(case)));
+                }
+                Some(t)
+            }
+            ChunkRule::RefuseOrServe(t) => {
+                if o.responded {
+                    Some(t)
+                } else {
+                    if i == 0 && o.error.is_some() {
+                        return Case::fail("write-chunked:no-answer", format!("chunk 0: {o:?}; {}", ctx(case)));
+                    }
+                    if let Some(call) = calls.first() {
+                        return Case::fail("write-chunked:effect-of-refused-chunk", format!("chunk {i} was refused ({o:?}) but the handler was called: {call:?}; {}", ctx(case)));
+                    }
+                    None
+                }
+            }
+        };
+        if let (Some(timed_ok), true) = (timed_ok, o.responded) {
+            // served: exactly as a single-message write
+            let mut cst = Stats::new();
+            let (mut exp, mut exp_calls) = expect_write(&model, &case.node, &c.items, timed_ok, &mut cst);
+            let got: Vec<(Path, Got)> = o.statuses.iter().map(|s| (s.path, Got::Status(s.status))).collect();
+            let classify = |p: &Path, g: &Got| -> &'static str {
+                match g {
+                    Got::Status(0) => "success-reported-for-unpermitted-or-unrequested-element",
+                    Got::Status(_) if p.is_wildcard() => "status-for-wildcard-path",
+                    _ => "unexpected-status",
+                }
+            };
+            if let Err((sig, d)) = match_all("write-chunked", &mut exp, &got, &classify) {
+                return fail((sig, format!("chunk {i} (timed state {timed_ok:?}): {d}")), case);
+            }
+            if let Err((sig, d)) = match_calls("write-chunked", &mut exp_calls, calls, &model) {
+                return fail((sig, format!("chunk {i} (timed state {timed_ok:?}): {d}")), case);
+            }
+            for call in calls {
+                if call.accepted != write_ok_reported(&got, call) {
+                    return Case::fail("write-chunked:status-contradicts-effect", format!("chunk {i}: handler call {call:?} vs statuses {:?}", o.statuses));
+                }
+            }
+            served += 1;
+            if cst.nontrivial() || cst.labels.iter().any(|l| l == "timed-only-element") {
+                interesting = true;
+            }
+            for l in cst.labels {
+                st.label(&l);
+            }
+        } else if o.responded {
+            // a mismatching chunk answered with refusals only: the interaction goes on
+        }
+        if refused || !o.responded {
+            ended_at = Some(i);
+            break;
+        }
+    }
+    // nothing happens after the interaction ended (refusal, silence, or last chunk)
+    let last_mark = marks.last().copied().unwrap_or(0);
+    if obs.calls.len() > last_mark {
+        return Case::fail(
+            "write-chunked:effect-after-the-interaction-ended",
+            format!("handler call(s) after the answer to the last chunk that was sent: {:?}; {}", &obs.calls[last_mark..], ctx(case)),
+        );
+    }
+    if let Some(i) = ended_at {
+        if out.chunks.len() > i + 1 {
+            return Case::inconclusive("chunks were sent after the interaction ended");
+        }
+        st.label("ended-early");
+    }
+    st.label(&format!("served:{served}"));
+    Case::pass(served >= 2 && (interesting || deviating)).labels(st.labels)
 }
 
 /// Whether a success status exists for the element of a handler call.
@@ -1662,33 +1842,95 @@ fn write_case() -> impl Strategy<Value = C06Case> {
     (
         common(false),
         raw_paths(7),
-        prop::collection::vec((bytes(24), prop::collection::vec(bytes(8), 0..3), 0u8..12), 8),
+        raw_vals(),
         raw_timed(),
         0u8..100,
     )
         .prop_map(|((node, world, who, sched, seed), raw, vals, timed, flagsel)| {
             let who = resolve_who(&world, &who);
             let paths = resolve_paths(&node, Leaf::Attr, true, &raw, 8);
-            let items = paths
-                .iter()
-                .enumerate()
-                .map(|(i, p)| {
-                    let (scalar, list, shape) = &vals[i % vals.len()];
-                    // the kind of the first matching attribute decides the value shape (mostly)
-                    let is_list = node.endpoints.iter().flat_map(|e| e.clusters.iter().flat_map(move |c| c.attributes.iter().map(move |a| (e.id, c.id, a)))).find(|(e, c, a)| p.matches(*e, *c, a.id)).map(|(_, _, a)| a.is_list).unwrap_or(false);
-                    let (value, list_index) = match (is_list, *shape) {
-                        (true, 0..=6) => (Value::List(list.clone()), None),
-                        (true, 7..=9) => (Value::Scalar(scalar.clone()), Some(None)),
-                        (true, _) => (Value::Scalar(scalar.clone()), None),
-                        (false, 0..=10) => (Value::Scalar(scalar.clone()), None),
-                        (false, _) => (Value::List(list.clone()), None),
-                    };
-                    WriteItem { path: *p, list_index, dataver: None, value }
-                })
-                .collect();
+            let items = make_write_items(&node, &paths, &vals);
             let timed = resolve_timed(&timed);
             let flag = if flagsel < 88 { timed.is_some() } else { timed.is_none() };
             C06Case { node, world, who, emits: vec![], req: Request::Write { timed, flag, items }, changes: vec![], sched, seed }
+        })
+}
+
+type RawVals = Vec<(Vec<u8>, Vec<Vec<u8>>, u8)>;
+
+fn raw_vals() -> impl Strategy<Value = RawVals> {
+    prop::collection::vec((bytes(24), prop::collection::vec(bytes(8), 0..3), 0u8..12), 8)
+}
+
+fn make_write_items(node: &NodeSpec, paths: &[Path], vals: &RawVals) -> Vec<WriteItem> {
+    paths
+        .iter()
+        .enumerate()
+        .map(|(i, p)| {
+            let (scalar, list, shape) = &vals[i % vals.len()];
+            // the kind of the first matching attribute decides the value shape (mostly)
+            let is_list = node.endpoints.iter().flat_map(|e| e.clusters.iter().flat_map(move |c| c.attributes.iter().map(move |a| (e.id, c.id, a)))).find(|(e, c, a)| p.matches(*e, *c, a.id)).map(|(_, _, a)| a.is_list).unwrap_or(false);
+            let (value, list_index) = match (is_list, *shape) {
+                (true, 0..=6) => (Value::List(list.clone()), None),
+                (true, 7..=9) => (Value::Scalar(scalar.clone()), Some(None)),
+                (true, _) => (Value::Scalar(scalar.clone()), None),
+                (false, 0..=10) => (Value::Scalar(scalar.clone()), None),
+                (false, _) => (Value::List(list.clone()), None),
+            };
+            WriteItem { path: *p, list_index, dataver: None, value }
+        })
+        .collect()
+}
+
+/// A WriteRequest in 2-4 chunks: optional Timed request (delay around the timeout as in `write`),
+/// per-chunk TimedRequest flags (consistent, or one chunk deviating either way), per-chunk items
+/// from the write-item generator, delays between the chunks (none, small, around the end of the
+/// timed window, far beyond it).
+fn write_chunked_case() -> impl Strategy<Value = C06Case> {
+    (
+        common(false),
+        prop::collection::vec((raw_paths(3), raw_vals()), 2..=4),
+        prop::option::weighted(
+            0.6,
+            (prop_oneof![3 => prop::sample::select(vec![0u16, 1, 2, 50, 1000, 5000]), 1 => 0u16..3000], prop::sample::select(vec![0u8, 0, 0, 6, 6, 4, 1, 2, 3, 5]), any::<u32>()),
+        ),
+        prop::option::weighted(0.3, any::<u16>()),
+        prop::collection::vec((0u8..10, any::<u32>()), 4),
+    )
+        .prop_map(|((node, world, who, sched, seed), raw_chunks, timed, deviate, delays)| {
+            let who = resolve_who(&world, &who);
+            let timed = resolve_timed(&timed);
+            let limit = timed.map(|t| t.timeout_ms as u64 * 1000).unwrap_or(0);
+            let n = raw_chunks.len();
+            let deviating = deviate.map(|d| pick(d, n));
+            // virtual time since the Timed request was confirmed
+            let mut elapsed = timed.map(|t| t.delay_us).unwrap_or(0);
+            let chunks = raw_chunks
+                .iter()
+                .enumerate()
+                .map(|(i, (raw, vals))| {
+                    let paths = resolve_paths(&node, Leaf::Attr, true, raw, 4);
+                    let items = make_write_items(&node, &paths, vals);
+                    let (kind, rnd) = delays[i % delays.len()];
+                    let delay_us = if i == 0 {
+                        0
+                    } else {
+                        match kind {
+                            0..=3 => 0,
+                            4 => rnd as u64 % 5000,
+                            5 => (limit.saturating_sub(1)).saturating_sub(elapsed),
+                            6 => limit.saturating_sub(elapsed),
+                            7 => (limit + 1).saturating_sub(elapsed),
+                            8 => (limit + 1 + rnd as u64 % 2_000_000).saturating_sub(elapsed),
+                            _ => (limit / 2).saturating_sub(elapsed),
+                        }
+                    };
+                    elapsed += delay_us;
+                    let timed_flag = timed.is_some() != (deviating == Some(i));
+                    WriteChunk { items, timed_flag, delay_us }
+                })
+                .collect();
+            C06Case { node, world, who, emits: vec![], req: Request::WriteChunked { timed, chunks }, changes: vec![], sched, seed }
         })
 }
 
@@ -1916,14 +2158,17 @@ fn main() {
     run.assume("the reference ACL decision of c05.rs (checked against AccessReq::allow by C05) is the meaning of 'permitted for the requester'; where it says 'either' (ProxyView, ambiguous declarations) both outcomes are accepted");
     run.assume("status codes are compared by class: success / member of the access-denied-or-unsupported-path family {UNSUPPORTED_ACCESS, _ENDPOINT, _CLUSTER, _ATTRIBUTE, _COMMAND, _EVENT, _READ, _WRITE, _NODE, NEEDS_TIMED_INTERACTION} / other failure (only when the synthetic handler itself rejects the value)");
     run.assume("the statement is silent on (accepted either way): data-version filters that match; wildcard cluster with a concrete non-global attribute; wildcard cluster / leaf in write and invoke paths; invoke requests with several commands that repeat a path or a command reference or exceed 5 commands; the rest of a request whose timed flag and Timed request disagree or whose timeout expired (refused as a whole, without any effect, or processed as untimed); attributes marked FAB_SCOPED written by a fabric-less requester; a concrete event path whose event id does not exist on an existing cluster; a subscription containing a path that is absent / denied / matches nothing (refused as a whole or answered with statuses)");
+    run.assume("write-chunked (2-4 WriteRequest chunks with MoreChunkedMessages on one exchange, each answered by a WriteResponse): a timed-only element is written only if a Timed request preceded the write and the chunk carrying it has TimedRequest=true; a chunk whose TimedRequest flag disagrees with whether a Timed request preceded has no effect at all and gets a non-success answer (or none); every other chunk is judged exactly like a single-message write, with its own slice of the handler log; a chunk after the FIRST that arrives after the timed window ended may be refused (no effect) or served (timed-only elements then either way), the first chunk after the window is judged as in `write`; no chunk is sent and nothing may happen after a chunk was not answered by a WriteResponse");
     run.assume("a Timed interaction is valid iff the action is processed no later than timeout ms after the Timed request (d <= T acts): measured on the controller in virtual time with zero network latency");
     run.assume("group requester: a planted session pair whose device side has SessionMode::Group (the device then treats the request as group-cast: no answers); the request is sent unreliably and only the handler call log is compared; group membership tables are installed with the C05 installer");
     run.assume("an event is fabric-sensitive iff its declaration has FAB_SENSITIVE and its payload carries a FabricIndex field (context tag 254); such an event of another fabric must never be reported (with or without fabric filtering), in every sub-check");
     run.assume("sessions, fabrics and ACL entries are planted directly (ReservedSession, Fabrics::add_with_post_init, Fabric::acl_add); ACL entries do not change inside a request; the cluster feature map is 0 (no auxiliary ACLs)");
     let scale = |q: u64, t: u64| run.cases(q, t);
+    let n_wchunk = scale(40_000, 2_000_000);
     let (n_read, n_write, n_invoke, n_dyn, n_group, n_fs) = (scale(100_000, 4_000_000), scale(50_000, 2_500_000), scale(50_000, 2_500_000), scale(25_000, 1_000_000), scale(25_000, 1_000_000), scale(10_000, 300_000));
     run.prop("read", n_read, read_case, |c| check_read(c, false));
     run.prop("write", n_write, write_case, check_write);
+    run.prop("write-chunked", n_wchunk, write_chunked_case, check_write_chunked);
     run.prop("invoke", n_invoke, invoke_case, check_invoke);
     run.prop("dynamic-node", n_dyn, dynamic_case, |c| check_read(c, false));
     run.prop("group", n_group, group_case, check_group);
